@@ -6,6 +6,7 @@
 import Csvq.Model.Float
 import Csvq.Model.ParseFloat
 import Csvq.Model.ParseTime
+import Csvq.Model.Unicode
 namespace Csvq.Proto
 open Csvq
 
@@ -84,6 +85,9 @@ def textProfileOK (p : Profile) : Bool :=
     let t := PF.strTernaryB b
     p.int? == PF.strToIntStrictB b && p.flt? == PF.strToFloat b && p.tern == t
       && p.bool? == (match t with | .U => none | .T => some true | .F => some false)
+      -- the text of the string rung and of the GROUP BY key: strings.ToUpper(option.TrimSpace(raw)), by the model's
+      -- own case mapping (Model/Unicode.lean)
+      && p.strU? == some (Uni.strToUpper (PF.trimSpace b))
       -- the datetime reading: the built-in notations all begin with a digit; a text that begins otherwise can
       -- only be a datetime through a custom format of the session (the C07 stream runs under one), which the
       -- model does not know
